@@ -4,35 +4,34 @@
 //   `#[cfg(kani)] mod vp_playback;` to src/lib.rs and run
 //   `cargo kani playback -Z concrete-playback -- vp_playback` (add --release for the release profile)
 
-/// Test generated for harness `c16::t_constprop_u8::mutating` 
-///
-/// Check for `assertion`: "assertion failed: ch == (x != a)"
-
+/// Kani concrete playback for `c16::t_constprop_u8::mutating` (check: assertion failed: x == a.clone().join(b.clone()))
 #[test]
-fn kani_concrete_playback_mutating_18425830733548322880() {
+fn kani_concrete_playback_mutating_13497532756967206175() {
     let concrete_vals: Vec<Vec<u8>> = vec![
-        // 0
-        vec![0],
-        // 0
-        vec![0],
+        // 253
+        vec![253],
+        // 100
+        vec![100],
+        // 101
+        vec![101],
     ];
     kani::concrete_playback_run(concrete_vals, crate::c16::t_constprop_u8::mutating);
 }
 /* native results:
 [
  {
-  "test": "kani_concrete_playback_mutating_18425830733548322880",
-  "check": "assertion failed: ch == (x != a)",
+  "test": "kani_concrete_playback_mutating_13497532756967206175",
+  "check": "assertion failed: x == a.clone().join(b.clone())",
   "profile": "dev",
   "native": "FAILED",
-  "panic": "panicked at src/c16.rs:64:4:\nassertion failed: ch == (x != a)"
+  "panic": "panicked at src/c16.rs:63:4:\nassertion failed: x == a.clone().join(b.clone())"
  },
  {
-  "test": "kani_concrete_playback_mutating_18425830733548322880",
-  "check": "assertion failed: ch == (x != a)",
+  "test": "kani_concrete_playback_mutating_13497532756967206175",
+  "check": "assertion failed: x == a.clone().join(b.clone())",
   "profile": "release",
   "native": "FAILED",
-  "panic": "panicked at src/c16.rs:64:4:\nassertion failed: ch == (x != a)"
+  "panic": "panicked at src/c16.rs:63:4:\nassertion failed: x == a.clone().join(b.clone())"
  }
 ]
 */
